@@ -139,6 +139,11 @@ func (w *HlsWatch) onOp(op *sim.FsOp) {
 	if op.Err == "injected" {
 		st.faulted = true
 	}
+	if (op.Kind == "create" || op.Kind == "write" || op.Kind == "remove") && strings.HasSuffix(op.Path, ".ts") {
+		// a re-published stream may reuse a segment file name: never judge new content by an old verdict
+		delete(st.segVerdict, op.Path)
+		delete(st.segVideo, op.Path)
+	}
 	if op.Kind == "create" && strings.HasSuffix(op.Path, ".ts") && op.Err == "" {
 		st.created = append(st.created, op.Path)
 	}
@@ -190,7 +195,7 @@ func (w *HlsWatch) onOp(op *sim.FsOp) {
 		case "":
 		case "KEY":
 			if !s.Discont && w.hasVideo[d] {
-				w.fail("C10.segment-not-at-key-frame", "after fs op #%d: segment %s carries video, was not opened by a discontinuity and does not start at a key frame", op.Seq, s.URI)
+				w.fail("C10.segment-not-at-key-frame", "after fs op #%d: segment %s carries video, was not opened by a discontinuity and does not start at a key frame; playlist: %q", op.Seq, s.URI, clip(string(b), 600))
 			}
 		default:
 			w.fail("C10.segment-malformed", "after fs op #%d: listed segment %s %s", op.Seq, s.URI, v)
@@ -368,6 +373,11 @@ func execHls(k *sim.Kernel, pl HlsPlan) {
 			}
 			if op.N >= len(pl.Pubs) {
 				continue
+			}
+			if nPubs > 0 {
+				// segment names carry the wall clock in ms: a re-publish within the same millisecond would reuse the
+				// names of segments the finished playlist still lists, which no real clock allows
+				k.Advance(time.Duration(3+7*nPubs) * time.Millisecond)
 			}
 			nPubs++
 			curPlan = &pl.Pubs[op.N]
